@@ -12,6 +12,8 @@ fn tagname(t: &Tag) -> String { let mut b = bytes::BytesMut::new(); mpd_protocol
 fn song(s: &r::Song) -> String {
     let mut tags: Vec<(String, String)> = s.tags.iter().map(|(t, vs)| (tagname(t), vs.iter().map(|v| hex(v.as_bytes())).collect::<Vec<_>>().join(","))).collect();
     tags.sort();
+    // the accessors are part of "reading the resulting value" (C12): a panic in one of them must show up here
+    let _ = (s.artists().len(), s.album_artists().len(), s.album().map(str::len), s.title().map(str::len), s.number(), s.file_path().as_os_str().len());
     format!("url={} dur={} format={} lm={} tags={}", hex(s.url.as_bytes()), od(&s.duration), os(&s.format),
             s.last_modified.as_ref().map(|t| hex(t.raw().as_bytes())).unwrap_or_else(|| "none".into()),
             tags.iter().map(|(t, v)| format!("{t}:{v}")).collect::<Vec<_>>().join(";"))
